@@ -45,6 +45,20 @@ CLAIMED['C10'] = dict(
     note='Trusted: Kani\'s model of the dev profile with std::fmt::format stubbed (error text only); num-bigint to_isize/to_usize contract; std slice indexing. '
          'Outside: streams (C11), non-ASCII strings, the take/drop/first/last/... one-line builtins, dict indexing (C09).',
     design='§7 C10', technique='Kani/CBMC bounded model checking + symbolic execution of rustc MIR with z3', engine='kani+mirsym')
+CLAIMED['C01'] = dict(
+    text='Bounded symbolic model checking of ONE mutation step from an arbitrary aliased pre-state (inductive step over histories): the real MIR of set_index (list, nested list, '
+         'vector, bytes, every-slice arms), modify_existing_index, Obj::try_pop and try_remove_index runs on a target whose Rc allocations carry explicit strong counts, with aliases '
+         'of the outer and/or inner allocation and an index path symbolic over all integers in both representations. On success the target equals the functional update at the '
+         'Python-normalised path, on failure it is unchanged, and every alias is unchanged in all cases.',
+    note='Kernel level. Trusted: the Rc model (clone/drop/make_mut/get_mut/try_unwrap per std contract). Bound: list of 3, nested 2x2, vector/bytes of 3, depth <= 2. '
+         'Outside: statement-level evaluator paths (closures sharing Env cells, for-loop binding, swap, consume), dict/struct/string arms, builtins that rebuild collections.',
+    design='§7 C01', technique='symbolic execution of rustc MIR with an explicit Rc/strong-count heap model + SMT (z3)')
+CLAIMED['C02'] = dict(
+    text='Same symbolic runs as C01 with the Rc model\'s clone log as the observable: at strong count 1 no Rc::make_mut clone / Vec clone happens and the allocation is kept; '
+         'with aliases at most one clone per level of the index path on the first step and none when the step is repeated (two consecutive steps are executed). '
+         'A counterexample is replayed natively as a scaling measurement (k mutations on n_small vs n_big elements).',
+    note='Kernel level. Outside: allocator/Vec growth, the evaluator statement paths that hand the variable cell to these kernels (OpAssign drop-before-call), by-value builtins (append, ++, |.), dict/struct arms.',
+    design='§7 C02', technique='symbolic execution of rustc MIR with an explicit Rc/strong-count heap model + SMT (z3)')
 NOT_APPLICABLE = {
  'C13': 'sequence library vs executable specification: the deciding content is std collections glued by one-line closures over whole sequences; not encodable as a bounded solver query over noulith code (DESIGN §9); parts decided under C08/C09/C10/C11/C14',
  'C17': 'freeze: semantic equivalence of two recursive traversals over programs; a bounded solver query cannot carry it (DESIGN §9)',
